@@ -8,6 +8,12 @@
 #include <cppcms/encoding.h>
 #include "utf_iterator.h"
 #include <booster/locale/utf.h>
+#include <cppcms/service.h>
+#include <cppcms/form.h>
+#include <cppcms/http_context.h>
+#include <cppcms/http_request.h>
+#include <cppcms/json.h>
+#include "/repo/tests/dummy_api.h"
 
 // ---- reference: RFC 3629 grammar --------------------------------------------------------------
 // returns length (1..4) of the well-formed sequence at p (n bytes available) or 0; cp out
@@ -110,13 +116,23 @@ static void strings_shard(int sh,int n){ bool th=vf::thorough(); std::vector<std
 	std::function<void(const std::vector<std::string>&,std::string&,int,int)> rec=[&](const std::vector<std::string> &cat,std::string &cur,int d,int maxd){ if(d==maxd){ if((idx++%n)==(uint64_t)sh) string_case(cur); return; } for(size_t i=0;i<cat.size();i++){ size_t l=cur.size(); cur+=cat[i]; rec(cat,cur,d+1,maxd); cur.resize(l);} };
 	std::string cur; for(int d=0;d<=3;d++) rec(full,cur,0,d); if(th) rec(full,cur,0,4); else rec(small,cur,0,4); vf::guard("catalogue_strings",idx/n); }
 
+
+// ---- form layer: widgets::text rejects invalid text and counts code points for its length limits -----------------------
+static void form_shard(int sh,int n){ const char *locs[]={"en_US.UTF-8","en_US.ISO-8859-1"}; for(int li=0;li<2;li++){ cppcms::json::value cfg; cfg["service"]["api"]="http"; cfg["service"]["port"]=0; cfg["service"]["disable_global_exit_handling"]=true; cfg["localization"]["locales"][0]=locs[li]; cfg["logging"]["level"]="emergency"; cppcms::service srv(cfg); std::string out; std::map<std::string,std::string> env; env["REQUEST_METHOD"]="POST"; env["CONTENT_TYPE"]="application/x-www-form-urlencoded";
+		std::vector<std::string> cat=catalogue(false); uint64_t idx=0; int lims[][2]={{0,-1},{1,3},{2,2},{0,0}};
+		std::function<void(std::string&,int,int)> rec=[&](std::string &cur,int d,int maxd){ if(d==maxd){ if((idx++%n)!=(uint64_t)sh) return; booster::shared_ptr<dummy_api> api(new dummy_api(srv,env,out)); booster::shared_ptr<cppcms::http::context> ctx(new cppcms::http::context(api)); ctx->request().post_.insert(std::make_pair(std::string("t"),cur)); // reference
+				bool rv; size_t rc=0; if(li==0){ std::vector<Item> items; rv=ref_string(cur,rc,items); } else { rv=true; rc=cur.size(); for(size_t i=0;i<cur.size();i++){ unsigned char c=cur[i]; if(c==9||c==10||c==13) continue; if(c<0x20||(c>=0x7F&&c<0xA0)) rv=false; } }
+				for(int l=0;l<4;l++){ vf::eval(); cppcms::widgets::text t; t.name("t"); t.limits(lims[l][0],lims[l][1]); t.load(*ctx); bool v=t.validate(); bool want= rv&&rc>=(size_t)lims[l][0]&&(lims[l][1]<0||rc<=(size_t)lims[l][1]); if(v!=want) bad(std::string(want?"form:rejects-valid:":"form:accepts-invalid:")+locs[li],std::string("widgets::text with limits(")+std::to_string(lims[l][0])+","+std::to_string(lims[l][1])+") in a "+locs[li]+" context "+(v?"accepts":"rejects")+" a value that is "+(rv?"valid with "+std::to_string(rc)+" code points":"not valid text"),cur); else vf::guard("form_widget_cases"); if(!v&&rv) vf::guard("form_rejected_by_length"); } return; }
+			for(size_t i=0;i<cat.size();i++){ size_t l=cur.size(); cur+=cat[i]; rec(cur,d+1,maxd); cur.resize(l);} };
+		std::string cur; for(int d=0;d<=(vf::thorough()?3:2);d++) rec(cur,0,d); } }
+
 int main(int argc,char **argv){ vf::init(argc,argv,"C14","exploration"); int n=16;
 	if(!vf::C().replay_file.empty()){ std::ifstream f(vf::C().replay_file); std::stringstream ss; ss<<f.rdbuf(); std::string in=vf::unhex(vf::jfield(ss.str(),"input_hex")); window((const unsigned char*)in.data(),std::min<size_t>(in.size(),4)); string_case(in); printf("replayed %s\n",vf::hex(in).c_str()); return vf::finish(); }
 	if(vf::C().pass=="sweep"){ vf::parallel(n,n,[&](int sh){ sweep_shard(sh,n); },1500); return vf::finish(); }
-	vf::C().rule=std::string("UTF-8: every byte window of length 4 (")+"all 2^32"+") and every string of length 1..3 through cppcms::utf8::next (plain and HTML-safe) and booster utf_traits<char>::decode vs a grammar-derived RFC 3629 decoder (value, length, verdict); single-byte: all 256 bytes and all 65536 pairs for 36 code-page names; whole strings: every concatenation of <=3 (and 4: "+(vf::thorough()?"full":"20-piece sub-catalogue")+") pieces of a 38-piece catalogue through valid/valid_utf8/validate_or_filter with and without replacement. distinct = (lead-byte class, reference length), (code page, byte, verdict), (string verdict, code points, unit structure); non-trivial: all";
+	vf::C().rule=std::string("UTF-8: every byte window of length 4 (")+"all 2^32"+") and every string of length 1..3 through cppcms::utf8::next (plain and HTML-safe) and booster utf_traits<char>::decode vs a grammar-derived RFC 3629 decoder (value, length, verdict); single-byte: all 256 bytes and all 65536 pairs for 36 code-page names; whole strings: every concatenation of <=3 (and 4: "+(vf::thorough()?"full":"20-piece sub-catalogue")+") pieces of a 38-piece catalogue through valid/valid_utf8/validate_or_filter with and without replacement; form layer: widgets::text with limits {(0,inf),(1,3),(2,2),(0,0)} in a UTF-8 and an ISO-8859-1 context loaded with every concatenation of <= 2 (thorough 3) catalogue pieces. distinct = (lead-byte class, reference length), (code page, byte, verdict), (string verdict, code points, unit structure); non-trivial: all";
 	vf::assume("C0/C1 controls are read as Unicode Cc incl. U+007F (the statement names DEL for the single-byte family; the code rejects it in HTML-safe UTF-8 as well)");
 	vf::assume("filtering: resynchronisation is byte-wise after an ill-formed lead; between 1 and n replacement characters per run of n invalid bytes are accepted");
 	vf::run_sub("rel","sweep");
-	vf::parallel(n,n,[&](int sh){ short_shard(sh,n); single_byte(sh,n); strings_shard(sh,n); },1500);
-	vf::require_guard("windows_wellformed"); vf::require_guard("html_mode_rejections"); vf::require_guard("code_pages"); vf::require_guard("filtered"); vf::require_guard("short_strings");
+	vf::parallel(n,n,[&](int sh){ short_shard(sh,n); single_byte(sh,n); strings_shard(sh,n); form_shard(sh,n); },1500);
+	vf::require_guard("windows_wellformed"); vf::require_guard("html_mode_rejections"); vf::require_guard("code_pages"); vf::require_guard("filtered"); vf::require_guard("short_strings"); vf::require_guard("form_widget_cases"); vf::require_guard("form_rejected_by_length");
 	return vf::finish(); }
